@@ -333,6 +333,7 @@ def run(ctx):
                 'of each uid, five (limit, offset) pages and retrieve_all with batch 1, 2, 50; all outputs compared with '
                 'the abstract map; evaluations = individual operations; every history is non-trivial (>=3 mutations)'
                 % (len(KINDS), nmut, UIDS))
+    out.rule += "; a fifth of the adds offer the very object handed to the previous add / update of that uid; for the serializing backends a reader changes the object a get handed out; SQL statement faults: the k-th statement of add / update / delete fails for every k (directly, behind the observable wrapper and the enfolding cache) and the storage's own later reads must show the stored set as it was"
     return out
 
 
